@@ -177,9 +177,9 @@ func init() {
 		trusted: []string{
 			"package reflect: ValueOf, Elem, Field, NumField, Kind, Type, Interface, IsNil, IsZero, CanSet, Set, New evaluated on static descriptors (DESIGN.md 3.5); the struct's field list comes from go/types on every run",
 			"template-data and _anchors values are trees as produced by the YAML decoder (ghost depth labelling TreeInv/AllTop/ghostFresh is a precondition of the merge functions); top-level maps of different config levels are distinct objects (hypothesis 'sep' of the key-by-key postconditions)",
-			"koanf/mapstructure/YAML decoding, the order of koanf.Load providers and the consumers of the effective values in RootApp.Run are outside this check (see C10 for the consumers)",
+			"koanf/mapstructure/YAML decoding is outside this check: after UnmarshalWithConf nothing is known about the RootConfig, so the precondition of RootConfig.Initialize (every pointer parameter of the top level set, template-data values are trees) is an assumption about decoded configurations, not discharged at the call site in NewRootConfig",
 		},
-		note: "partial: the merge machinery is proved field by field for the actual fields of config.Config: mergeConfigs (reflection resolved statically; pointer parameters: most specific level wins, otherwise a fresh copy; slices and typed maps inherited when unset; map[string]any merged key by key), mergeStringMaps (recursive, with loop invariants over a ghost visited set), and the three Initialize functions (which level is merged into which: call-site obligations; every level reached: loop invariants). Load order of defaults/env/file/flags and the read sites in Run are not covered here.",
+		note: "partial: the merge machinery is proved field by field for the actual fields of config.Config: mergeConfigs (reflection resolved statically; pointer parameters: most specific level wins, otherwise a fresh copy; slices and typed maps inherited when unset; map[string]any merged key by key), mergeStringMaps (recursive, with loop invariants over a ghost visited set), and the three Initialize functions (which level is merged into which: call-site obligations; every level reached: loop invariants). The load order defaults < env < file < flags is proved on NewRootConfig by call-site obligations; decoding itself (koanf/mapstructure) is assumed; of the read sites in Run only the template is stated (known finding D7).",
 	})
 }
 
@@ -252,7 +252,8 @@ func init() {
 	register(&propInfo{
 		id: "C02", patterns: []string{"./internal", "./template"},
 		trusted: genTrusted,
-		note:    "lemma-level: Registry.LookupInterface returns the complete interface of the looked-up object and errors on missing or non-interface objects; Generate builds one Method per method of that interface, in order, each from iface.Method(i); methodData reproduces parameter and result counts, order, variables and variadic-ness; ParsePackages never yields function-local types, so no interface is returned twice for that reason. That the templates render what the data model says, and assignability of the result, are the Go type checker's domain and not decided.",
+		extra:   implementsPhase,
+		note:    "lemma-level: Registry.LookupInterface returns the complete interface of the looked-up object and errors on missing or non-interface objects; Generate builds one Method per method of that interface, in order, each from iface.Method(i); methodData reproduces parameter and result counts, order, variables and variadic-ness; ParsePackages never yields function-local types, so no interface is returned twice for that reason. Instance facts: for every non-generic interface of the corpus /verif/corpus/m/ifaces.go and both built-in templates, go/types confirms that the freshly generated *Mock implements the interface (a sample over interfaces). That the templates render what the data model says for interfaces outside the corpus is not decided.",
 	})
 	register(&propInfo{
 		id: "C01", patterns: []string{"./internal", "./template"},
@@ -278,7 +279,7 @@ func init() {
 			"strict decoding of unknown configuration keys is koanf/mapstructure behaviour (ErrorUnused) and outside the check",
 			"no-panic is checked only for the explicit safety obligations generated (nil map writes, index bounds, explicit panic calls, type assertions, contracts' nil-deref safety where enabled); a complete absence-of-panic proof for every dereference is not claimed",
 		}, genTrusted...),
-		note: "partial: on the real RootApp.Run no error of a stage is swallowed (result == nil implies that Initialize, GetPackages, ParsePackages and every per-interface / per-file stage that ran returned nil: loop invariants over ghost last-error records), a run that ends normally has an empty missing-interface map and a non-empty one ends in os.Exit(1); InterfaceCollection.Append rejects exactly mocks whose output file, package name, source package or template differ; ParsePackages fails on load/type errors and never dereferences a failed scope lookup (function-local types); ShouldExcludeSubpkg returns the regex error instead of panicking; getTemplate errors on unknown templates, format on unknown formatters, validateSchema on rejected template-data, ParseTemplates on cyclic values (C11); findPkgPath terminates and uses the go.mod parser. Unknown configuration keys and exit-status plumbing in main are library behaviour.",
+		note: "partial: on the real RootApp.Run no error of a stage is swallowed (result == nil implies that Initialize, GetPackages, ParsePackages and every per-interface / per-file stage that ran returned nil: loop invariants over ghost last-error records), a run that ends normally has an empty missing-interface map and a non-empty one ends in os.Exit(1); InterfaceCollection.Append rejects exactly mocks whose output file, package name, source package or template differ; ParsePackages fails on load/type errors and never dereferences a failed scope lookup (function-local types); ShouldExcludeSubpkg returns the regex error instead of panicking; getTemplate errors on unknown templates, format on unknown formatters, validateSchema on rejected template-data, ParseTemplates on cyclic values (C11); findPkgPath terminates and uses the go.mod parser. Unknown configuration keys: NewRootConfig is proved to ask the decoder to reject unused keys (ErrorUnused) and to propagate its error; that the decoder does so is library behaviour, as is the exit-status plumbing in main.",
 	})
 	register(&propInfo{
 		id: "C20", patterns: []string{"./tools/cmd"},
